@@ -142,6 +142,10 @@ def conc_oracle(case: dict, steps, results) -> str | None:
         if (what in ("rej", "open")) == executed:
             return f"task {i}: {what} but executed={executed}"
     if kind == "fixed":
+        # no lapse is possible while less than min(period, ban ttl) has passed: then at most `limit` callers run
+        passed = sum(s[1] for s in steps if s[0] == "tick")
+        if passed < min(p["period"], p.get("ttl") or p["period"]) and sum(1 for r in results if r[0]) > p["limit"]:
+            return f"more than {p['limit']} callers ran although the counter cannot have lapsed ({passed} ticks passed)"
         # between two lapses of the counter (an `incr` answering 1 starts a new window) at most `limit` runs
         runs = 0
         for s in steps:
@@ -154,9 +158,25 @@ def conc_oracle(case: dict, steps, results) -> str | None:
                     if runs > p["limit"]:
                         return f"more than {p['limit']} runs between two lapses of the counter"
     elif kind == "breaker":
+        now = 0
+        open_until = None           # end of the open interval started by the latest successful set_lock
         for s in steps:
-            if s[0] == "step" and s[2] == "is_locked:T" and results[s[1]][0]:
-                return f"task {s[1]} found the breaker open and still ran the function"
+            if s[0] == "tick":
+                now += s[1]
+                continue
+            is_open = open_until is not None and now < open_until
+            if s[2] == "is_locked:T":
+                if results[s[1]][0]:
+                    return f"task {s[1]} found the breaker open and still ran the function"
+                if not is_open:
+                    return f"task {s[1]} was rejected although no call opened the breaker within the last ttl"
+            elif s[2] == "is_locked:F" and is_open:
+                return f"task {s[1]} was let through although the breaker was opened less than ttl ago"
+            elif s[2] == "set_lock:T":
+                open_until = now + p["ttl"]
+            elif s[2] == "set_lock:F" and not is_open:
+                return (f"task {s[1]} failed with the trip rule satisfied, the breaker was not open any more, "
+                        "and it still did not open")
     return None
 
 
@@ -285,8 +305,13 @@ def shrink_seq(case: dict, pred) -> dict:
     calls = ddmin(case["calls"], lambda cs: bool(cs) and pred(dict(case, calls=cs)))
     cur = dict(case, calls=calls)
     # then make the waits as small as they can be
+    # (the sliding limiter and the breaker are claimed for strictly increasing instants only: keep every wait
+    # but the first positive there)
+    floor = 0 if case["kind"] == "fixed" else 1
     for i in range(len(calls)):
         for smaller in (0, 1, calls[i][0] // 2, calls[i][0] - 1):
+            if i > 0 and smaller < floor:
+                continue
             if 0 <= smaller < cur["calls"][i][0]:
                 trial = [list(c) for c in cur["calls"]]
                 trial[i][0] = smaller
@@ -425,6 +450,8 @@ def run(chk: Check) -> int:
     n_seq = chk.budget(540, 30000)
     n_conc = chk.budget(150, 6000)
     found = 0
+    spec_hits: list = []       # cases on which the implementation contradicts the property
+    diff_hits: list = []       # cases on which it only differs from the model
     evaluations = 0
     distinct: set = set()
     interesting: dict[str, int] = {}
@@ -463,15 +490,16 @@ def run(chk: Check) -> int:
         note(case, marks, ("seq", kind, json.dumps(case["p"], sort_keys=True), json.dumps(case["calls"])))
         if len(samples) < 6 and marks and len(case["calls"]) <= 8 and sum(1 for s in samples if s["kind"] == kind) < 2:
             samples.append({"kind": kind, "p": case["p"], "style": case.get("style"), "calls": case["calls"], "impl": ev["impl"]})
-        if ev["spec"] != "holds" or ev["diff"] is not None:
-            found += 1
-            report_seq(chk, case, ev, origin)
-            if found >= 3:
+        if ev["spec"] != "holds":
+            spec_hits.append((report_seq, case, ev, origin))
+            if len(spec_hits) >= 3:
                 break
+        elif ev["diff"] is not None and len(diff_hits) < 3:
+            diff_hits.append((report_seq, case, ev, origin))
 
     # ---- interleavings: corpus, exhaustive small programs, random schedules ------------------------
     exhaustive_info = []
-    if found < 3:
+    if len(spec_hits) < 3:
         base = {"mode": "conc", "style": {"form": "int", "exc": "default"}, "schedule": []}
         small_programs = [
             dict(base, kind="fixed", p={"limit": 1, "period": 8, "ttl": 4}, tasks=["ok", "ok"], ticks=[]),
@@ -507,11 +535,19 @@ def run(chk: Check) -> int:
             note(case, marks, ("conc", kind, json.dumps(case["p"], sort_keys=True), json.dumps(ev["steps"])))
             if marks and sum(1 for s in samples if s.get("mode") == "conc") < 2 and len(ev["steps"]) <= 12:
                 samples.append({"mode": "conc", "kind": kind, "p": case["p"], "tasks": case["tasks"], "steps": ev["steps"], "results": ev["results"]})
-            if ev["spec"] is not None or ev["diff"] is not None:
-                found += 1
-                report_conc(chk, case, ev, origin)
-                if found >= 3:
+            if ev["spec"] is not None:
+                spec_hits.append((report_conc, case, ev, origin))
+                if len(spec_hits) >= 3:
                     break
+            elif ev["diff"] is not None and len(diff_hits) < 3:
+                diff_hits.append((report_conc, case, ev, origin))
+
+    # ---- verdicts: a disagreement with the model triggers the search for an input that contradicts the property
+    # itself (the whole budget above has been evaluated against the spec oracle); only if there is none is the
+    # broken correspondence reported on its own
+    for fn, case, ev, origin in (spec_hits[:3] or diff_hits[:2]):
+        found += 1
+        fn(chk, case, ev, origin)
 
     # ---- float trip rule on the real expression ----------------------------------------------------
     pairs, bad = float_trip_check(chk.budget(1500, 9999))
